@@ -694,7 +694,8 @@ End SKEL.
 (* allow: SimpleLabelFilterPlanner may occur; m15: the 15-second roll-up shortcut may occur *)
 Inductive logp (allow m15 : bool) : planner -> Prop :=
  | lp_sel ms : logp allow m15 (PStreamSelect ms)
- | lp_slf f fp : allow = true -> logp allow m15 fp -> logp allow m15 (PSimpleLabelFilter f fp)
+ | lp_slf f fp : logp allow m15 fp -> logp allow m15 (PSimpleLabelFilter f fp)   (* `allow` is not consulted any more: since the
+     repair of label-filter-series-scan-unbounded the read of SimpleLabelFilterPlanner is bounded like every other *)
  | lp_fpf fp main : logp allow m15 fp -> logp allow m15 main -> logp allow m15 (PFingerprintFilter fp main)
  | lp_main : logp allow m15 PMainInit
  | lp_ts : logp allow m15 PTimeSeriesInit
@@ -812,7 +813,7 @@ Section PROC.
 
   Theorem process_good p : logp allow m15 p -> proc_ok p.
   Proof.
-    induction 1 as [ms | f fp Hal Hfp IHfp | fp main Hfp IHfp Hmain IHmain | | | op v rl main Hmain IHmain
+    induction 1 as [ms | f fp Hfp IHfp | fp main Hfp IHfp Hmain IHmain | | | op v rl main Hmain IHmain
                    | f main Hmain IHmain | fn ps main Hmain IHmain | ps main Hmain IHmain | lbl main Hmain IHmain
                    | main fp ts lc Hmain IHmain Hfp IHfp Hts IHts | main ul Hmain IHmain | cols main Hmain IHmain
                    | main Hmain IHmain | main m fin Hmain IHmain
@@ -836,10 +837,15 @@ Section PROC.
         apply good_parts. unfold and_where, with_, add_withs. constructor; fields_all.
         * apply hoist_good; [constructor; [exact Gm | constructor] | constructor].
         * constructor; [|constructor]. split.
-          -- unfold And. rewrite conjs_and. cbn [flat_map app]. rewrite conjs_other by (intros l H; discriminate).
-             cbn [app]. constructor; [apply neutral_tsn_free, neutral_in_fp3 | constructor].
-          -- right. split; [exact Hal|]. exists id, main. unfold And. rewrite conjs_and. cbn [flat_map app].
-             rewrite conjs_other by (intros l H; discriminate). left. reflexivity.
+          -- unfold And. rewrite conjs_and. cbn [flat_map app]. rewrite !conjs_other by (unfold get_types, Ge; intros l H; discriminate).
+             cbn [app]. constructor; [apply neutral_tsn_free, neutral_in_fp3 |].
+             constructor; [apply tsn_free_closed; intros a b; reflexivity|].
+             constructor; [apply types_conj_free | constructor].
+          -- (* since the repair of label-filter-series-scan-unbounded: date and type bounds like every other time_series read *)
+             left. apply (bounded_index info c W); [apply Hwin | apply Hwin | apply Htab|].
+             unfold bounds, And. cbn [sc_conj]. rewrite conjs_and. cbn [flat_map app].
+             rewrite !conjs_other by (unfold get_types, Ge; intros l H; discriminate). cbn [flat_map app].
+             rewrite (neutral_in_fp3). reflexivity.
         * constructor.
         * apply exprs_parts. constructor; fields_all; cbn [ogood]; repeat constructor.
           unfold ScansPlanProofs.egood, And. cbn [escans flat_map app]. rewrite !app_nil_r. exact Gm.
@@ -1127,8 +1133,7 @@ Section PLAN.
     { induction l as [|[s b] r IH]; intros acc Hacc Hg; [exact Hacc|].
       cbn [fold_left fst snd]. apply IH.
       - destruct s; try exact Hacc. destruct b; [|exact Hacc].
-        destruct Hg as [Hg|Hg]; [apply lp_slf; assumption|].
-        cbn [forallb slf_pair fst snd is_label_filter andb negb] in Hg. discriminate.
+        apply lp_slf. exact Hacc.
       - destruct Hg as [Hg|Hg]; [left; exact Hg | right].
         cbn [forallb] in Hg. apply andb_true_iff in Hg. apply Hg. }
     intros Hg. apply H; [constructor | exact Hg].
@@ -1302,6 +1307,43 @@ Proof.
   intros sc [H|[H _]]; [exact H | discriminate H].
 Qed.
 
+(* `allow` (the licence for a fingerprint-restricted read without bounds) is not consulted by logp any more *)
+Lemma logp_allow a a' m15 p : logp a m15 p -> logp a' m15 p.
+Proof. induction 1; econstructor; eassumption. Qed.
+
+(* EVERY log query, no guard (since the repair of label-filter-series-scan-unbounded in /repo) *)
+Theorem log_scans_bounded_all info sel fin c p q st' p' :
+  ctx_tables info c -> plan_log sel fin = Some p -> process p c pst0 = Some (q, st', p') ->
+  Forall (scan_bounded info (win c)) (scans q).
+Proof.
+  intros Ht Hp Hq. pose proof (logp_allow true false _ _ (plan_log_logp true false sel fin p (or_introl eq_refl) Hp)) as Hl.
+  destruct (process_good info c false false (win c) Ht (win_ok_win c) p Hl pst0 q st' p' (inv0 _ _ _) Hq) as [G _].
+  apply (from_good _ _ _ _ true) in G. eapply Forall_impl; [|exact G].
+  intros sc [H|[H _]]; [exact H | discriminate H].
+Qed.
+Theorem metric_scans_bounded_all info s fin c p q st' p' :
+  ctx_tables info c -> (0 <= c_from_ns c)%Z -> (0 <= c_to_ns c)%Z ->
+  plan_metric s fin = Some p -> process p c pst0 = Some (q, st', p') ->
+  Forall (scan_bounded info (win15 c)) (scans q).
+Proof.
+  intros Ht Hf Hto Hp Hq.
+  pose proof (logp_allow true false _ _ (plan_metric_logp true true s fin p (fun _ => eq_refl) (or_introl eq_refl) Hp)) as Hl.
+  destruct (process_good info c false true (win15 c) Ht (win_ok_win15 c Hf Hto) p Hl pst0 q st' p' (inv0 _ _ _) Hq) as [G _].
+  apply (from_good _ _ _ _ true) in G. eapply Forall_impl; [|exact G].
+  intros sc [H|[H _]]; [exact H | discriminate H].
+Qed.
+Theorem metric_scans_bounded_raw_all info s fin c p q st' p' :
+  ctx_tables info c -> analyze_m15 s = false ->
+  plan_metric s fin = Some p -> process p c pst0 = Some (q, st', p') ->
+  Forall (scan_bounded info (win c)) (scans q).
+Proof.
+  intros Ht Ha Hp Hq.
+  pose proof (logp_allow true false _ _ (plan_metric_logp true false s fin p (fun H => eq_trans (eq_sym Ha) H) (or_introl eq_refl) Hp)) as Hl.
+  destruct (process_good info c false false (win c) Ht (win_ok_win c) p Hl pst0 q st' p' (inv0 _ _ _) Hq) as [G _].
+  apply (from_good _ _ _ _ true) in G. eapply Forall_impl; [|exact G].
+  intros sc [H|[H _]]; [exact H | discriminate H].
+Qed.
+
 (* ------------------------------------------------------------------ witnesses *)
 Open Scope string_scope.
 Definition std_ctx : pctx :=
@@ -1335,15 +1377,17 @@ Definition slf_plan : planner := Eval vm_compute in match plan_log slf_query tru
 Definition slf_result := Eval vm_compute in process slf_plan std_ctx pst0.
 Definition slf_select : select := match slf_result with Some (q, _, _) => q | None => empty_select end.
 
-Lemma slf_refutes :
+(* the former counterexample of every_scan_bounded ({a="b"} | c="d": the time_series read of SimpleLabelFilterPlanner had neither a
+   date bound nor a type conjunct) meets the hypotheses of the full theorem; its statement has 4 base-table reads, all bounded *)
+Lemma slf_witness :
   plan_log slf_query true = Some slf_plan /\
   (exists st' p', process slf_plan std_ctx pst0 = Some (slf_select, st', p')) /\
-  ~ Forall (scan_bounded table_info (win std_ctx)) (scans slf_select).
+  every_scan_bounded_b table_info (win std_ctx) slf_select = true /\ Nat.leb 4 (List.length (scans slf_select)) = true.
 Proof.
   split; [vm_compute; reflexivity|]. split.
   - unfold slf_select. destruct slf_result as [[[q st'] p']|] eqn:E; [|discriminate E].
     exists st', p'. unfold slf_result in E. rewrite <- E. vm_compute. reflexivity.
-  - intros H. apply every_scan_bounded_b_complete in H. vm_compute in H. discriminate H.
+  - split; vm_compute; reflexivity.
 Qed.
 
 Definition plain_plan : planner := Eval vm_compute in match plan_log plain_query true with Some p => p | None => PMainInit end.
